@@ -190,3 +190,183 @@ Print Assumptions C15_raced_request_waits_for_its_timer.
 Print Assumptions C15_oracle_holds_on_model.
 Print Assumptions C15_write_oracle_holds_on_model.
 Print Assumptions C15_read_oracle_holds_on_model.
+
+(** ** the replica side: rpc/server.go readWrite / handleX / createResponse (model Rpc/Server.v)
+
+    Proved for every request list and every behaviour of the data processor.  Not a theorem: the runtime
+    panics of the code as it is (a read frame with a negative Size, an EOF count beyond the buffer) end the
+    model's run ([SPanic]) and are not driven on the implementation; logrus.Fatal on EIO; the accept loop of
+    replica/rpc/server.go (one connection at a time) is exercised by the harness only through Handle(). *)
+From Jiva Require Import Rpc.Server Rpc.ServerProofs.
+
+(** (a) the reply is written on the request's own message object: same Seq (whatever its value), same
+    Offset, and the magic number *)
+Theorem C15_server_reply_carries_request_seq : forall m o r, srv_step m o = Some r ->
+  mseq r = mseq m /\ moff r = moff m /\ (mmagic m = magic_version -> mmagic r = magic_version).
+Proof. exact srv_step_seq. Qed.
+
+(** one reply per request, in request order; the i-th reply is computed from the i-th request and from what
+    the processor did for the i-th request *)
+Theorem C15_server_in_order : forall proc reqs k reps st, serve_from proc k reqs = (reps, st) ->
+  (st = SEnd -> length reps = length reqs) /\ (length reps <= length reqs)%nat /\
+  forall i r, nth_error reps i = Some r ->
+    exists m, nth_error reqs i = Some m /\ srv_step m (proc (k + i)%nat m) = Some r /\
+              mseq r = mseq m /\ moff r = moff m.
+Proof. exact serve_in_order. Qed.
+
+Theorem C15_server_seqs_in_request_order : forall proc reqs k reps, serve_from proc k reqs = (reps, SEnd) ->
+  map mseq reps = map mseq reqs.
+Proof. exact serve_seqs. Qed.
+
+(** the loop ends early only where the Go runtime panics, and not at all otherwise *)
+Theorem C15_server_stops_only_at_panic : forall proc reqs k reps, serve_from proc k reqs = (reps, SPanic) ->
+  exists m, nth_error reqs (length reps) = Some m /\ panics m (proc (k + length reps)%nat m) = true.
+Proof. exact serve_stops_at_panic. Qed.
+
+Theorem C15_server_answers_every_request : forall proc reqs k,
+  (forall i m, nth_error reqs i = Some m -> panics m (proc (k + i)%nat m) = false) ->
+  snd (serve_from proc k reqs) = SEnd /\ length (fst (serve_from proc k reqs)) = length reqs.
+Proof. exact serve_total. Qed.
+
+(** (b) type / payload / Size of every reply, as createResponse makes them *)
+Theorem C15_server_reply_mapping : forall m o r, srv_step m o = Some r ->
+  mtype r = expect_type m o /\ mdata r = expect_data m o /\ size_ok m o r = true.
+Proof. exact srv_step_spec. Qed.
+
+Theorem C15_server_reply_type : forall m o r, handled (mtype m) = true -> srv_step m o = Some r ->
+  mtype r = match o with OOk _ => TypeResponse | OEof _ _ => TypeEOF | OErr _ => TypeError end.
+Proof. exact reply_type_mapping. Qed.
+
+Theorem C15_server_unhandled_type_answered_unchanged : forall m o, handled (mtype m) = false -> srv_step m o = Some m.
+Proof. exact unhandled_answered_unchanged. Qed.
+
+Theorem C15_server_size_is_payload_length : forall m o r, srv_step m o = Some r -> handled (mtype m) = true ->
+  (mtype m = TypeWrite -> mtype r <> TypeResponse) -> msize r = Z.of_nat (length (mdata r)).
+Proof. exact size_is_payload_length. Qed.
+
+Theorem C15_server_write_ack : forall m d r, mtype m = TypeWrite -> srv_step m (OOk d) = Some r ->
+  mtype r = TypeResponse /\ mdata r = [] /\ msize r = Z.of_nat (length (mdata m)).
+Proof. exact write_ack. Qed.
+
+Theorem C15_server_read_reply : forall m d r, mtype m = TypeRead -> srv_step m (OOk d) = Some r ->
+  mtype r = TypeResponse /\ mdata r = fill (Z.to_nat (msize m)) d /\ msize r = msize m.
+Proof. exact read_reply. Qed.
+
+Theorem C15_server_eof_reply_truncated : forall m c d r, mtype m = TypeRead -> srv_step m (OEof c d) = Some r ->
+  mtype r = TypeEOF /\ mdata r = firstn (Z.to_nat c) (fill (Z.to_nat (msize m)) d) /\ msize r = c /\
+  (0 <= c <= msize m)%Z.
+Proof. exact eof_reply. Qed.
+
+Theorem C15_server_error_reply : forall m t r, handled (mtype m) = true -> srv_step m (OErr t) = Some r ->
+  mtype r = TypeError /\ mdata r = t /\ msize r = Z.of_nat (length t).
+Proof. exact error_reply. Qed.
+
+(** (c) bytes: what the server writes is read back by a Wire.Read loop as exactly the replies *)
+Theorem C15_server_replies_roundtrip : forall proc reqs k reps st, Forall req_ok reqs -> (forall i m, outcome_ok (proc i m)) ->
+  serve_from proc k reqs = (reps, st) -> decode_stream (flat_map encode reps) = (reps, EndClean).
+Proof. exact replies_roundtrip. Qed.
+
+(** a request stream ending in something that is not a frame (nothing, a cut frame, a wrong magic): the
+    complete frames before it are answered, then the server stops *)
+Theorem C15_server_stream_complete_frames : forall reqs tail script, Forall wf reqs ->
+  (forall m r, decode_r tail <> DOk m r) ->
+  serve_stream (flat_map encode reqs ++ tail) script =
+  (flat_map encode (fst (serve reqs script)), snd (decode_stream tail), snd (serve reqs script)).
+Proof. exact serve_stream_complete_frames. Qed.
+
+Theorem C15_server_stream_truncated : forall reqs m0 k script, Forall wf reqs -> wf m0 -> (k < length (encode m0))%nat ->
+  fst (fst (serve_stream (flat_map encode reqs ++ firstn k (encode m0)) script)) = flat_map encode (fst (serve reqs script)).
+Proof. exact serve_stream_truncated. Qed.
+
+Theorem C15_server_stream_bad_magic : forall reqs m0 rest script, Forall wf reqs -> mmagic m0 < 2 ^ 16 -> mmagic m0 <> magic_version ->
+  fst (fst (serve_stream (flat_map encode reqs ++ encode m0 ++ rest) script)) = flat_map encode (fst (serve reqs script)).
+Proof. exact serve_stream_bad_magic. Qed.
+
+Theorem C15_server_stream_roundtrip : forall reqs tail script, Forall req_ok reqs -> Forall outcome_ok script ->
+  (forall m r, decode_r tail <> DOk m r) ->
+  decode_stream (fst (fst (serve_stream (flat_map encode reqs ++ tail) script))) = (fst (serve reqs script), EndClean).
+Proof. exact serve_stream_roundtrip. Qed.
+
+(** the executable statement of (a)+(b) over observations holds on the model's own output *)
+Theorem C15_server_oracle_holds_on_model : forall reqs script, Forall (fun m => mmagic m = magic_version) reqs ->
+  c15_server_ok reqs script (fst (serve reqs script)) = true.
+Proof. exact c15_server_ok_model. Qed.
+
+Theorem C15_server_case_holds_on_model : forall input script, bytes input ->
+  let reqs := fst (decode_stream input) in
+  let c := mksv input reqs script (fst (serve reqs script)) in
+  server_diff c = 0%nat /\ sv_oracle (check_scase c) = true.
+Proof. exact server_case_model. Qed.
+
+(** (d) END TO END: the client machine above served by this server over two FIFO pipes, every schedule
+    ([list nev]: calls, server steps, deliveries, timers, a transport error, in any interleaving), every data
+    processor, fewer than 2^32 requests on the connection.  A call that returns anything but the connection's
+    error returns what [operation] makes of the reply the server computed for the k-th frame of the
+    connection from what the processor did for the k-th request, and that k-th frame was put on the
+    connection by this call's own request event ([sent_pairs], C15_sent_pairs_are_own_frames). *)
+Theorem C15_end_to_end : forall proc sched,
+  N.of_nat (count_reqs (ntrace proc seq_mod net0 sched)) < seq_mod ->
+  forall pre e o post id r,
+    exec seq_mod init (ntrace proc seq_mod net0 sched) = pre ++ (e, o) :: post ->
+    In (Done id r) o -> is_local r = false ->
+    exists k sq rq rep,
+      rid rq = id /\ nth_error (sent_pairs pre) k = Some (sq, rq) /\
+      srv_step (req_msg sq rq) (proc k (req_msg sq rq)) = Some rep /\
+      e = Resp sq (mtype rep) (msize rep) (mdata rep) /\
+      r = op_result rq (mtype rep) (msize rep) (mdata rep).
+Proof.
+  intros proc sched Hc. apply end_to_end. now apply guard_of_count.
+Qed.
+
+(** the same for every modulus of the counter under the guard (wrapped counters included) *)
+Theorem C15_end_to_end_under_guard : forall proc M sched,
+  guard M init (ntrace proc M net0 sched) = true ->
+  forall pre e o post id r,
+    exec M init (ntrace proc M net0 sched) = pre ++ (e, o) :: post ->
+    In (Done id r) o -> is_local r = false ->
+    exists k sq rq rep,
+      rid rq = id /\ nth_error (sent_pairs pre) k = Some (sq, rq) /\
+      srv_step (req_msg sq rq) (proc k (req_msg sq rq)) = Some rep /\
+      e = Resp sq (mtype rep) (msize rep) (mdata rep) /\
+      r = op_result rq (mtype rep) (msize rep) (mdata rep).
+Proof. exact end_to_end. Qed.
+
+Theorem C15_sent_pairs_are_own_frames : forall M es s k sq rq, nth_error (sent_pairs (exec M s es)) k = Some (sq, rq) ->
+  sent_in (exec M s es) sq rq.
+Proof. exact sent_pairs_sent_in. Qed.
+
+Theorem C15_own_frame_unique : forall M es s, NoDup (req_ids es) -> NoDup (map pid (sent_pairs (exec M s es))).
+Proof. exact own_frame_unique. Qed.
+
+(** a reader whose request the processor served with [data] finds exactly that data in its buffer *)
+Theorem C15_read_result_is_own_data : forall sq rq data rep, rkind rq = KRead ->
+  srv_step (req_msg sq rq) (OOk data) = Some rep ->
+  op_result rq (mtype rep) (msize rep) (mdata rep) =
+  mkres (Z.of_N (rlen rq)) ENone (fill (N.to_nat (rlen rq)) data).
+Proof. exact read_result_is_own_data. Qed.
+
+Print Assumptions C15_server_reply_carries_request_seq.
+Print Assumptions C15_server_in_order.
+Print Assumptions C15_server_seqs_in_request_order.
+Print Assumptions C15_server_stops_only_at_panic.
+Print Assumptions C15_server_answers_every_request.
+Print Assumptions C15_server_reply_mapping.
+Print Assumptions C15_server_reply_type.
+Print Assumptions C15_server_unhandled_type_answered_unchanged.
+Print Assumptions C15_server_size_is_payload_length.
+Print Assumptions C15_server_write_ack.
+Print Assumptions C15_server_read_reply.
+Print Assumptions C15_server_eof_reply_truncated.
+Print Assumptions C15_server_error_reply.
+Print Assumptions C15_server_replies_roundtrip.
+Print Assumptions C15_server_stream_complete_frames.
+Print Assumptions C15_server_stream_truncated.
+Print Assumptions C15_server_stream_bad_magic.
+Print Assumptions C15_server_stream_roundtrip.
+Print Assumptions C15_server_oracle_holds_on_model.
+Print Assumptions C15_server_case_holds_on_model.
+Print Assumptions C15_end_to_end.
+Print Assumptions C15_end_to_end_under_guard.
+Print Assumptions C15_sent_pairs_are_own_frames.
+Print Assumptions C15_own_frame_unique.
+Print Assumptions C15_read_result_is_own_data.
